@@ -216,12 +216,14 @@ func runC14(c *core.Ctx) {
 			})
 		}
 		n := 0
-		for _, in := range allInstrs(now, anyOf(isWriteMsg, callTo("(*wire.WriteContext).WriteMagic"))) {
+		// only the magic is demanded: a repeated OverlayHeader message is decoded by the applier as a SKIP of 0 bytes
+		// (harmless, see §5), a repeated magic would be read as a message length
+		for _, in := range allInstrs(now, callTo("(*wire.WriteContext).WriteMagic")) {
 			n++
-			c.Check(atZero(in), "R14.3", core.FnName(now), "header write "+core.CalleeName(in.(*ssa.Call))+" only at overlay offset 0", core.InstrPos(in),
-				"control-dependent on overlayOffset == 0", "magic/header is written when resuming at a non-zero overlay offset: the applier finds a second header in the middle of the stream")
+			c.Check(atZero(in), "R14.3", core.FnName(now), "magic written only at overlay offset 0", core.InstrPos(in),
+				"control-dependent on overlayOffset == 0", "the magic is written when resuming at a non-zero overlay offset: the applier reads it as a message length in the middle of the stream")
 		}
-		c.Floor("R14.3", "header writes", n, 2)
+		c.Floor("R14.3", "magic writes", n, 1)
 		seeded := false
 		for _, in := range allInstrs(now, callTo("(*github.com/itchio/headway/counter.Writer).SetCount")) {
 			if in.(*ssa.Call).Call.Args[1] == ssa.Value(ovOff) {
